@@ -126,7 +126,8 @@ class Check(CheckBase):
             '(empty file, multi-chunk file, unaligned sizes) identically; init raised => the backend saw zero mutations (also over an '
             'existing repository: its config stays byte-identical and its key still unlocks). Key chains: add-key '
             'independent/shared/clone/shared-of-shared with KDF variations on long-lived and fresh sessions, then the full '
-            'password x key unlock matrix in fresh objects. class = (deviated parameter) / (chain shape)')
+            'password x key unlock matrix in fresh objects; keys written by `python -m replicat init / add-key` are opened by the independent '
+            'reader with their own password, and their secrets compared with what the mode promises. class = (deviated parameter) / (chain shape)')
     assumptions = ['"usable" = unlock + snapshot + restore of a small tree round-trips in a fresh Repository object']
     case_timeout = 300
 
